@@ -137,7 +137,7 @@ int __wrap_epoll_wait(int epfd, struct epoll_event *ev, int max, int timeout) {
 }
 ssize_t __wrap_write(int fd, const void *b, size_t n) {
     if (shim_inject_write_eagain && fd >= 0 && fd < SHIM_MAXFD && shim_fd[fd].st == FD_LIB_OPEN && shim_fd[fd].kind == FK_PIPE) {
-        shim_inject_write_eagain = 0; errno = EAGAIN; return -1;
+        if (--shim_inject_write_eagain == 0) { errno = EAGAIN; return -1; }       /* the n-th next pipe write is refused */
     }
     return __real_write(fd, b, n);
 }
